@@ -47,6 +47,20 @@ LEAF_POOL = [
     {"kind": "rule", "name": "Short", "origin": "str", "cons": {"max_length": 3}},
     {"kind": "rule", "name": "NegFloat", "origin": "float", "cons": {"lt": 0}},
     {"kind": "rule", "name": "EvenInt", "origin": "int", "cons": {"multiple_of": 2}},
+    # rules whose acceptance is decided outside `__validators__`: contains-only, hook-only, args-only, bare, library
+    {"kind": "rule", "name": "HasPositive", "origin": "list", "cons": {"max_contains": 2},
+     "contains": {"kind": "rule", "name": "PosInt", "origin": "int", "cons": {"gt": 0}}},
+    {"kind": "rule", "name": "HasStr", "origin": "list", "cons": {"min_contains": 2}, "contains": {"kind": "cls", "name": "str"}},
+    {"kind": "rule", "name": "NanOnly", "origin": "float", "cons": {}, "hook": "post_nan"},
+    {"kind": "rule", "name": "NonNegInt", "origin": "int", "cons": {}, "hook": "post_nonneg"},
+    {"kind": "rule", "name": "NonEmptyStr", "origin": "str", "cons": {}, "hook": "pre_nonempty"},
+    {"kind": "rule", "name": "EvenDict", "origin": "dict", "cons": {}, "hook": "post_evenlen"},
+    {"kind": "rule", "name": "BareInt", "origin": "int", "cons": {}},
+    {"kind": "rule", "name": "BareList", "origin": "list", "cons": {}},
+    {"kind": "rule", "name": "IntList", "origin": "list", "cons": {}, "args": ["int"]},
+    {"kind": "rule", "name": "StrIntTuple", "origin": "tuple", "cons": {}, "args": ["str", "int"]},
+    {"kind": "rule", "lib": "NanFloat", "name": "NanFloat", "origin": "float", "cons": {}},
+    {"kind": "rule", "lib": "InfinityFloat", "name": "InfinityFloat", "origin": "float", "cons": {}},
     {"kind": "alias", "spec": "List[int]"},
     {"kind": "alias", "spec": "List[str]"},
     {"kind": "alias", "spec": "Dict[str, int]"},
@@ -73,7 +87,9 @@ VALUE_POOL = [
     {"b": "3"}, {"b": "abc"}, {"b": "tue"},
     {"d": "3"}, {"d": "3.0"}, {"d": "2.5"},
     {"l": []}, {"l": [{"i": "1"}, {"s": "2"}]}, {"l": [{"s": "a"}]}, {"l": [{"s": "x"}, {"s": "3"}]}, {"l": [{"i": "3"}]},
-    {"t": [{"s": "x"}, {"i": "1"}]},
+    {"l": [{"i": "-1"}, {"i": "-2"}]}, {"l": [{"i": "1"}, {"i": "2"}, {"i": "3"}]}, {"l": [{"i": "1"}, {"i": "-1"}]},
+    {"l": [{"s": "a"}, {"s": "b"}]},
+    {"t": [{"s": "x"}, {"i": "1"}]}, {"t": [{"s": "x"}, {"s": "y"}]}, {"t": [{"i": "1"}]},
     {"m": []}, {"m": [[{"s": "a"}, {"s": "1"}]]}, {"m": [[{"s": "a"}, {"i": "2"}], [{"s": "b"}, {"s": "x"}]]},
     {"m": [[{"s": "name"}, {"s": "bob"}], [{"s": "age"}, {"s": "3"}]]},
     {"date": "2000-01-02"},
@@ -207,6 +223,36 @@ def strip_np(t):
     return {"e": t["e"], "sub": [strip_np(x) for x in t["sub"]]}
 
 
+def _h_post_nan(v):
+    import math
+    if not math.isnan(v):
+        raise ValueError("not nan")
+    return v
+
+
+def _h_post_nonneg(v):
+    if v < 0:
+        raise ValueError("negative")
+    return v
+
+
+def _h_pre_nonempty(v):
+    if v == "" or v == b"":
+        raise ValueError("empty")
+    return v
+
+
+def _h_post_evenlen(v):
+    if len(v) % 2:
+        raise ValueError("odd length")
+    return v
+
+
+# user hooks of a Rule (acceptance decided outside `__validators__`)
+HOOKS = {"post_nan": ("post_validate", _h_post_nan), "post_nonneg": ("post_validate", _h_post_nonneg),
+         "pre_nonempty": ("pre_validate", _h_pre_nonempty), "post_evenlen": ("post_validate", _h_post_evenlen)}
+
+
 def _mk_leaf(d):
     import typing
     from utype import Rule, Schema
@@ -215,7 +261,22 @@ def _mk_leaf(d):
     if k == "cls":
         return cls[d["name"]]
     if k == "rule":
-        return type(d["name"], (cls[d["origin"]], Rule), dict(d["cons"]))
+        if d.get("lib"):
+            from utype import types
+            return getattr(types, d["lib"])
+        attrs = dict(d["cons"])
+        if d.get("contains"):
+            attrs["contains"] = _mk_leaf(d["contains"])
+        if d.get("args"):
+            attrs["__args__"] = tuple(cls[a] for a in d["args"])
+        if d.get("hook"):
+            which, fn = HOOKS[d["hook"]]
+
+            def hook(c, value, context=None, _fn=fn):
+                return _fn(value)
+
+            attrs[which] = classmethod(hook)
+        return type(d["name"], (cls[d["origin"]], Rule), attrs)
     if k == "alias":
         return eval(d["spec"], dict(ns))
     if k == "lit":
@@ -360,6 +421,20 @@ def impl(case):
     root = built[-1]
     if root is None:
         root = type(None)
+    # field forms: the built type annotates a data-class field (as it is, or as Optional[...]); the type under test is
+    # what the class parser made of the annotation, and the root call goes through the class
+    via, holder = case.get("via"), None
+    if via:
+        from utype import Options, Schema
+        ann = typing.Optional[root] if via == "optional_field" else root
+        attrs = {"__annotations__": {"f": ann}, "__module__": __name__}
+        if _kw(case["opts"]):
+            attrs["__options__"] = Options(**_kw(case["opts"]))
+        try:
+            holder = type("Holder", (Schema,), attrs)
+            root = holder.__parser__.fields["f"].type
+        except Exception as ex:
+            return {"struct": None, "builderr": f"{type(ex).__name__} declaring a field annotated with the built type"}
 
     ids, nodes = {}, []
 
@@ -376,7 +451,16 @@ def impl(case):
 
     node_index = {}
 
+    def unwrap(x):
+        # `Rule[AnyOf(...)]`: the anonymous wrapper Rule.annotate puts around a typing.Union / Optional annotation
+        while (isinstance(x, LogicalType) and not x.combinator and leaf_index(x) is None and x is not Rule
+               and isinstance(getattr(x, "__origin__", None), LogicalType) and x.__origin__.combinator
+               and not x.__args__ and not x.__validators__ and x.__name__ == "Rule"):
+            x = x.__origin__
+        return x
+
     def struct(x):
+        x = unwrap(x)
         if x is typing.Any:
             return {"any": True}, {"special": "any"}
         if x is Rule:
@@ -459,7 +543,15 @@ def impl(case):
                     ntable.append([k, var[0], var[1], n, {"ok": vals[rk][0]} if rk in vals else {"ok": None, "enc": enc(r)}])
                 else:
                     ntable.append([k, var[0], var[1], n, {"err": r}])
-    kind, r = _call(root, _kw(opts), v0)
+    if holder is not None:
+        try:
+            kind, r = "ok", holder(f=_copy(v0)).f
+        except RecursionError:
+            kind, r = "err", {"e": "RecursionError", "sub": [], "np": True}
+        except Exception as e:
+            kind, r = "err", errtree(e)
+    else:
+        kind, r = _call(root, _kw(opts), v0)
     if kind == "ok":
         rk = json.dumps(enc(r), sort_keys=True)
         out["out"] = {"ok": vals[rk][0]} if rk in vals else {"ok": None, "enc": enc(r)}
@@ -481,11 +573,14 @@ def _probe(case):
     raws = [_mk_leaf(d) for d in leaves]
     dcs = {d["name"]: raws[i] for i, d in enumerate(leaves) if d["kind"] == "dc"}
     seen = [LogicalType._parse_arg(r) if leaves[i]["kind"] in ("alias", "lit", "none") else r for i, r in enumerate(raws)]
-    acc, conv, thread = [], [], []
+    acc, conv, thread, origin = [], [], [], []
     for j, vd in enumerate(case["values"]):
         v = decode_value(vd, dcs)
         key = json.dumps(enc(v), sort_keys=True)
         outs = {}
+        for i, d in enumerate(leaves):
+            if d["kind"] == "rule" and type(v) is getattr(raws[i], "__origin__", None):
+                origin.append([i, j])       # the value is of exactly the rule's origin type
         for i, LT in enumerate(seen):
             kind, r = _call(LT, {}, v)
             if kind == "ok":
@@ -502,7 +597,7 @@ def _probe(case):
                 kind, _ = _call(LT, {}, r)
                 if (kind == "ok") != (b in outs):
                     thread.append([i, b, j])      # leaf i converts value j; leaf b accepts exactly one of (value, converted)
-    return {"acc": acc, "conv": conv, "thread": thread}
+    return {"acc": acc, "conv": conv, "thread": thread, "origin": origin}
 
 
 # ------------------------------------------------------------------------------------------------
@@ -555,7 +650,9 @@ def algebra_violations(case, s, top=True) -> list:
         out.append(("arity", f"'~' with {len(args)} operands"))
     for a in args:
         if "comb" in a and a["comb"] == c:
-            kind = "call-keeps-nesting" if any(has_call(d) for d in case["defs"]) else "nest"
+            # (Optional[T] in an annotation is `any_of(T, None)`, a classmethod call)
+            kind = ("call-keeps-nesting" if any(has_call(d) for d in case["defs"]) or case.get("via") == "optional_field"
+                    else "nest")
             out.append((kind, f"'{c}' directly inside '{c}' (not flattened)" if c != "~" else "double negation not cancelled"))
         out += algebra_violations(case, a, False)
     return out
@@ -607,7 +704,7 @@ def expected_chain(case, e, op):
 
 def order_violations(case, s) -> list:
     """`a <op> b <op> c` has the operands a, b, c — in the order written (first occurrences; Any absorbed)"""
-    if len(case["defs"]) != 1:
+    if len(case["defs"]) != 1 or case.get("via"):
         return []
     e = case["defs"][0]
     op = e.get("bin") or e.get("call")
@@ -776,6 +873,9 @@ class Probe:
         self.acc = {(i, j) for i, j in res["acc"]}
         self.conv = {(i, j) for i, j in res["conv"]}
         self.thread = [tuple(t) for t in res["thread"]]
+        # ⟨rule leaf, value of exactly its origin type⟩, split by whether the leaf accepts the value
+        self.origin_rej = [(i, j) for i, j in res.get("origin", []) if (i, j) not in self.acc]
+        self.origin_acc = [(i, j) for i, j in res.get("origin", []) if (i, j) in self.acc]
 
     def hot_values(self, pool_idx):
         """values that at least two of the given pool leaves accept, or one converts"""
@@ -826,6 +926,31 @@ def threading_cases(rng, probe: Probe, n):
     return out
 
 
+def origin_type_cases(rng, probe: Probe, n):
+    """a rule leaf A with an input of exactly A's ORIGIN type that A rejects (or accepts): under |, ^, &, ~ with None /
+    another leaf on either side, called directly, as a data-class field and as an Optional[...] field"""
+    out = []
+    pairs = list(probe.origin_rej) * 2 + list(probe.origin_acc)
+    rng.shuffle(pairs)
+    nleaf = len(LEAF_POOL)
+    for a, j in pairs[:n]:
+        b = rng.choice([i for i in range(nleaf) if i != a and LEAF_POOL[i]["kind"] not in ("any", "rulebase")])
+        leaves = [NONE_LEAF, LEAF_POOL[a], LEAF_POOL[b], {"kind": "none"}]
+        A, B, N = {"atom": 1}, {"atom": 2}, {"atom": 3}
+        forms = [{"bin": "|", "l": A, "r": N}, {"bin": "|", "l": N, "r": A}, {"bin": "|", "l": A, "r": B},
+                 {"call": "|", "args": [B, A]}, {"bin": "^", "l": A, "r": N}, {"bin": "^", "l": A, "r": B},
+                 {"inv": A}, {"bin": "|", "l": {"inv": A}, "r": N}, {"bin": "&", "l": A, "r": {"inv": B}},
+                 {"bin": "|", "l": {"bin": "&", "l": A, "r": A}, "r": B}]
+        for k, e in enumerate(forms):
+            c = {"leaves": leaves, "defs": [e], "opts": dict(rng.choice(OPTS_POOL[:11])), "value": VALUE_POOL[j]}
+            via = rng.choice([None, None, "field", "optional_field"]) if k < 6 else None
+            if via:
+                c["via"] = via
+            out.append(c)
+        out.append({"leaves": leaves, "defs": [A], "opts": {}, "value": VALUE_POOL[j], "via": "optional_field"})
+    return out
+
+
 def perm_family(rng, probe: Probe):
     """one combinator over 2-4 leaves in EVERY argument order, same input"""
     idx = pick_leaves(rng, rng.choice([2, 3, 3, 4]))
@@ -841,12 +966,16 @@ def perm_family(rng, probe: Probe):
     return out
 
 
+def leaf_named(n):
+    return next(d for d in LEAF_POOL if (d.get("name") or d.get("spec")) == n)
+
+
 def kind_matrix():
     """every ordered pair of operand kinds under every binary operator (which side's metaclass dispatches, which
     side is flattened), and `~` of every kind"""
-    L = [NONE_LEAF, {"kind": "cls", "name": "int"}, LEAF_POOL[11], LEAF_POOL[9], LEAF_POOL[24], {"kind": "any"},
+    L = [NONE_LEAF, {"kind": "cls", "name": "int"}, leaf_named("Slug"), leaf_named("PosInt"), leaf_named("DcA"), {"kind": "any"},
          {"kind": "none"}, {"kind": "alias", "spec": "List[int]"}, {"kind": "lit", "value": {"i": "3"}},
-         {"kind": "cls", "name": "str"}, LEAF_POOL[25], {"kind": "rulebase"}]
+         {"kind": "cls", "name": "str"}, leaf_named("DcUser"), {"kind": "rulebase"}]
     assert L[2]["name"] == "Slug" and L[3]["name"] == "PosInt" and L[4]["name"] == "DcA" and L[10]["name"] == "DcUser"
     A = lambda i: {"atom": i}
 
@@ -924,8 +1053,10 @@ class C09(Check):
     impl = "harness.c09:impl"
     case_timeout = 20.0
     rule = ("operator expressions (|, ^, &, ~, any_of/one_of/all_of/not_of, shared sub-expressions, depth<=3) over 2-5 leaves "
-            "drawn from 30 leaf descriptors (builtin classes, constrained Rule subclasses, typing generics, literals, data "
-            "classes, Any, None, Rule) x 50 input values x 14 option sets; leaf-pairs where one leaf converts the input and "
+            "drawn from 42 leaf descriptors (builtin classes; Rule subclasses decided by validators, by contains/min/max_contains "
+            "only, by pre/post_validate hooks only, by item types only, bare, library NanFloat/InfinityFloat; typing generics, "
+            "literals, data classes, Any, None, Rule) x 56 input values x 14 option sets, called directly, as a data-class field "
+            "and as an Optional[...] field; every rule leaf is paired with inputs of exactly its ORIGIN type that it rejects / accepts;  leaf-pairs where one leaf converts the input and "
             "another accepts exactly one of (input, converted) are found by probing the real leaves first and emitted in "
             "every argument order; permutation families emit one combinator in every order of its arguments.  "
             "non-trivial = the built type is a combinator and the input is not an exact-type hit of a union root; distinct "
@@ -957,11 +1088,14 @@ class C09(Check):
             out += kind_matrix()
         if tier == "thorough":
             out += exhaustive_small()
+        out += origin_type_cases(rng, pr, {"quick": 60, "thorough": 400, "search": 100}.get(tier, 60))
         out += threading_cases(rng, pr, {"quick": 12, "thorough": 150, "search": 40}.get(tier, 12))
         for _ in range({"quick": 25, "thorough": 300, "search": 60}.get(tier, 25)):
             out += perm_family(rng, pr)
         while len(out) < n:
             c = gen_case(rng, pr)
+            if rng.random() < 0.12:
+                c["via"] = rng.choice(["field", "optional_field"])
             out.append(c)
             if rng.random() < 0.4:
                 out.append(dict(c, defs=[mirror(d) for d in c["defs"]]))
@@ -990,7 +1124,13 @@ class C09(Check):
         return names
 
     def model_line2(self, case, io):
-        line = {"kinds": [d["kind"] for d in case["leaves"]], "defs": case["defs"], "v": 0,
+        kinds, defs = [d["kind"] for d in case["leaves"]], list(case["defs"])
+        if case.get("via") == "optional_field":
+            # the class parser turns Optional[T] into LogicalType.any_of(T, None)
+            if "none" not in kinds:
+                kinds = kinds + ["none"]
+            defs.append({"call": "|", "args": [{"ref": len(defs) - 1}, {"atom": kinds.index("none")}]})
+        line = {"kinds": kinds, "defs": defs, "v": 0,
                 "opts": {"ndl": bool(case["opts"].get("no_data_loss")), "nec": bool(case["opts"].get("no_explicit_cast")),
                          "collect": bool(case["opts"].get("collect_errors")), "max": case["opts"].get("max_errors"),
                          "override": bool(case["opts"].get("override"))},
@@ -1035,6 +1175,8 @@ class C09(Check):
 
         if "err" not in m:
             return f"outcome differs: impl={r} model={m}"
+        if case.get("via"):
+            return None           # through a field the exception is re-wrapped by the class parser: verdict only
         got, want = strip_np(r["err"]), back(m["err"])
         if case["opts"].get("collect_errors"):
             # with error collection the CONTENT of the collected list is not the property's business (and under `&`
@@ -1094,7 +1236,7 @@ class C09(Check):
             return None
         if io["struct"]["comb"] == "|" and any([c.get("leaf"), 0] in io["exact"] for c in io["nodes"][0]["children"] if "leaf" in c):
             return None
-        return json.dumps([self.shape(case, io["struct"]), case["opts"], case["value"]], sort_keys=True)
+        return json.dumps([self.shape(case, io["struct"]), case["opts"], case["value"], case.get("via")], sort_keys=True)
 
     def distribution(self, case, io):
         if not isinstance(io, dict) or "struct" not in io:
@@ -1121,8 +1263,12 @@ class C09(Check):
         base = tuple(io["variants"][0]) if io.get("variants") else (False, False)
         mono_bad = any((a, b) != base and "ok" in o and "ok" not in t.get((l, base[0], base[1], v), {"ok": 0})
                        for (l, a, b, v), o in t.items())
+        # hypothesis `hL` of C09_tree_union_sound (transform.py: a value of exactly the class is returned as it is)
+        exact_bad = any(t.get((l, a, b, v), {"ok": v}).get("ok") != v
+                        for l, v in io.get("exact", []) for a, b in map(tuple, io.get("variants", [])))
         return (f"root={root}/depth={depth}/{res}/{flags}" + ("/incomplete" if io.get("incomplete") else "")
-                + ("/leaf-not-monotone" if mono_bad else ""))
+                + (f"/via-{case['via']}" if case.get("via") else "")
+                + ("/leaf-not-monotone" if mono_bad else "") + ("/leaf-exact-law-broken" if exact_bad else ""))
 
     def neighbours(self, case, rng):
         out = [dict(case, defs=[mirror(d) for d in case["defs"]])]
